@@ -89,10 +89,10 @@ def callOkB (md : Module) (hm : HMap) (vm : Vm) : Bool :=
 def allocFreshB (vm : Vm) : Bool :=
   vm.gc.free == 0 || (decide (vm.gc.free < vm.gc.mem.size) && (vm.gc.mem.objAt vm.gc.free).isNone)
 
-/-- the decidable per-step check run on every replayed step (Driver/VmDrv.lean).  Its first and last conjunct re-validate on the
-run what Props/C07 PROVES of verified modules (no word of a live frame record is overwritten; MK_INIT_ARRAY finds the constants of
-the `INT`s before it); the middle ones are the side conditions `StepOk` of `verify_sound_partial` that remain assumptions: the
-function value at a CALL has the right arity, a RET finds a live record, the allocator hands an `INT` a free cell. -/
+/-- the decidable per-step check run on every replayed step (Driver/VmDrv.lean).  The CALL and RET conjuncts are the side conditions
+`StepOk` of `verify_sound_partial` that remain assumptions (the function value at a CALL has the arity of its call site; a RET finds a
+live record); the others re-validate on the run what is PROVED: no word of a live frame record is overwritten and MK_INIT_ARRAY finds the
+constants of the `INT`s before it (Props/C07, verified modules), the allocator hands an `INT` a free cell (Props/C09, any module). -/
 def stepOkB (md : Module) (hm : HMap) (vm vm' : Vm) (recs : List Rec) : Bool :=
   (recs.all fun r => !(decide (r ∈ ghostNext md vm recs)) ||
     (slot vm' (r.F - 4) == slot vm (r.F - 4) && slot vm' (r.F - 1) == slot vm (r.F - 1) && slot vm' r.F == slot vm r.F)) &&
